@@ -103,20 +103,33 @@ def _bits(r, n):
 @st.composite
 def setcover_spec(draw):
     pool = draw(st.sampled_from(POOLS8))
-    n = draw(st.sampled_from([1, 2, 2, 3, 3]))
-    N = draw(st.sampled_from([1, 2, 3, 3, 4, 4]))
+    n = draw(st.sampled_from([1, 2, 2, 3, 3, 4, 4, 5]))
+    N = draw(st.sampled_from([1, 2, 3, 3, 4, 4, 5]))
     masks = [draw(st.integers(0, (1 << n) - 1)) for _ in range(N)]
     for e in range(n):
         if not any((m >> e) & 1 for m in masks):
             masks[draw(st.integers(0, N - 1))] |= 1 << e
+    hub = draw(st.integers(0, 5)) == 0
+    if hub:
+        # one element shared by three subsets that are all indispensable (each owns a private element): every cover
+        # hits the shared element three times, so the higher bits of the log-trick counter matter
+        n, N = 4, 3
+        masks = [0b0011, 0b0101, 0b1001]
+        if draw(st.booleans()):
+            masks.append(draw(st.integers(1, 15)))
+            N = 4
+        order = draw(st.permutations(list(range(N))))
+        masks = [masks[i] for i in order]
     U = list(pool[:n])
     V = [[U[e] for e in range(n) if (m >> e) & 1] for m in masks]
     weights = None
     if draw(st.booleans()):
         weights = [draw(st.sampled_from([0.25, 0.5, 0.75, 1])) for _ in range(N)]
         weights[draw(st.integers(0, N - 1))] = 1
-    log_trick = draw(st.booleans())
+    log_trick = draw(st.booleans()) or (hub and draw(st.booleans()))
     need = max(sum((m >> e) & 1 for m in masks) for e in range(n))
+    if not log_trick and N + n * need > MAXV:
+        log_trick = True          # larger set systems (an element in three or more subsets) only fit with the log trick
     M = draw(st.sampled_from([None, None, 0, 1, 2, 3]))
     if M is not None:
         M = need + M
